@@ -158,7 +158,7 @@ def fidelity(n_seq, seed=1):
     return bad == 0
 
 
-def determinism(runs, checks):
+def determinism(runs, checks, base_seed=core.DEFAULT_SEED):
     ok = True
     for script in checks:
         name = os.path.basename(script)
@@ -169,6 +169,7 @@ def determinism(runs, checks):
                 p = subprocess.run(
                     [PY, script, "--tier", "quick", "--runs", str(runs),
                      "--budget", "600", "--workers", str(workers),
+                     "--seed", str(base_seed),
                      "--digests", tf.name, "--no-evidence"],
                     capture_output=True, text=True, env=env, timeout=1800)
                 if p.returncode not in (0, 1):
@@ -185,8 +186,9 @@ def determinism(runs, checks):
                 print(f"determinism: {name} DIFFERS on {len(diff)} of "
                       f"{len(a)} runs, e.g. idx {diff[:5]}")
             else:
-                print(f"determinism: {name} {len(a)} runs identical across "
-                      "PYTHONHASHSEED 0/12345 and 16/3 workers")
+                print(f"determinism: {name} {len(a)} runs (base seed "
+                      f"{base_seed}) identical across PYTHONHASHSEED "
+                      "0/12345 and 16/3 workers")
     return ok
 
 
@@ -381,6 +383,7 @@ def main():
         checks = [c for c in checks if args.only in c]
     if not args.fast:
         ok &= determinism(200, checks)
+        ok &= determinism(120, checks, base_seed=7)
         ok &= evidence_schema()
     print("SELFTEST", "OK" if ok else "FAILED")
     return 0 if ok else 1
